@@ -21,7 +21,8 @@ func init() {
 func walkIsBounded(w LinkWalk) bool {
 	h := w.Header
 	fn := w.Fn
-	inLoop := func(b *ssa.BasicBlock) bool { return h.Dominates(b) && (b == h || reachesWithin(b, h, h) || hasBackEdgeTo(b, h)) }
+	loopSet := naturalLoop(h)
+	inLoop := func(b *ssa.BasicBlock) bool { return loopSet[b] }
 	for _, b := range fn.Blocks {
 		if !h.Dominates(b) {
 			continue
